@@ -139,10 +139,10 @@ func b2TimeUncertain(raw []byte) bool {
 
 func b2ResUncertain(data []byte, s *jsonapi.Schema) bool {
 	var sk jsonapi.ResourceSkeleton
-	if json.Unmarshal(data, &sk) != nil || !s.HasType(sk.Type) {
+	if json.Unmarshal(data, &sk) != nil || !hasTypeIndep(s, sk.Type) {
 		return false
 	}
-	typ := s.GetType(sk.Type)
+	typ, _ := lookupTypeIndep(s, sk.Type)
 	for k, v := range sk.Attributes {
 		if a, ok := typ.Attrs[k]; ok && a.Type == jsonapi.AttrTypeTime && b2TimeUncertain(v) {
 			return true
@@ -773,7 +773,7 @@ func suiteBytes2(r *Rng, n int, thorough bool, o *Out) {
 					}
 				default:
 					obs = "ok " + sxIdent(iden)
-					if !s.HasType(iden.Type) {
+					if !hasTypeIndep(s, iden.Type) {
 						pv = "FAIL[C05]:C05 identifier type not in schema"
 					}
 				}
@@ -809,7 +809,7 @@ func suiteBytes2(r *Rng, n int, thorough bool, o *Out) {
 					is := make([]string, len(idens))
 					for i := range idens {
 						is[i] = sxIdent(idens[i])
-						if !s.HasType(idens[i].Type) {
+						if !hasTypeIndep(s, idens[i].Type) {
 							pv = "FAIL[C05]:C05 identifier type not in schema"
 						}
 					}
